@@ -750,7 +750,7 @@ func (r *rewriter) rewriteCall(c *astutil.Cursor, n *ast.CallExpr) {
 			st.vfs++
 			return
 		}
-		if pkg == "os" && recv == "" && (name == "Rename" || name == "Remove") {
+		if pkg == "os" && recv == "" && (name == "Rename" || name == "Remove" || name == "WriteFile") {
 			n.Fun = &ast.SelectorExpr{X: ast.NewIdent("vfs"), Sel: ast.NewIdent(name)}
 			r.keep["os"] = true
 			r.changed, r.usedVfs = true, true
